@@ -26,6 +26,10 @@ if own:
             work.append((pid, "seeded/own/%s/%s" % (pid, os.path.basename(p)), p))
 def one(w):
     pid, name, path = w
+    mf = os.path.join(os.path.dirname(path), "meta.json")
+    if path.endswith("patch.diff") and os.path.exists(mf) and json.load(open(mf)).get("retired"):
+        print(name, "retired", flush=True)
+        return name, {"property": pid, "tier": tier, "verdict": "retired", "fingerprints": [], "evaluations_until_stop": None}
     p = subprocess.run([os.path.join(ROOT, "tools", "trymut.sh"), path, pid, tier], stdout=subprocess.PIPE, stderr=subprocess.STDOUT, text=True)
     out = p.stdout
     m = re.search(r"trymut rc=(\d+)", out)
